@@ -1,9 +1,11 @@
 #!/bin/bash
 # eval_mutants.sh : every mutant that survives the repository's own tests (/tmp/mut/survivors/*.diff) is applied to /repo and the
-# quick checks of the properties that depend on the mutated file are run; writes /tmp/mut/eval.log
+# quick checks of the properties that depend on the mutated file are run (side by side); appends to /tmp/mut/eval.log
 cd /verif
-: > /tmp/mut/eval.log
+touch /tmp/mut/eval.log
 for d in $(ls /tmp/mut/survivors/*.diff | sort -V); do
+  b=$(basename $d)
+  grep -q "^$b " /tmp/mut/eval.log && continue
   f=$(grep -m1 '^+++ b/' $d | cut -c7-)
   case "$f" in
     src/bdd.rs) props="C02 C03 C04 C05 C06 C07 C20 C13";;
@@ -20,17 +22,24 @@ for d in $(ls /tmp/mut/survivors/*.diff | sort -V); do
     *) props="C01";;
   esac
   if ! git -C /repo diff --quiet; then echo "/repo not clean"; exit 2; fi
-  git -C /repo apply $d || { echo "$(basename $d) does-not-apply" >> /tmp/mut/eval.log; continue; }
-  hit=""
-  for p in $props; do
-    r=$(timeout 1200 ./check $p 2>&1 | grep -E "^VIOLATION" | head -2)
-    if [ -n "$r" ]; then
-      if echo "$r" | grep -qv "no-failing-input-found"; then hit="$hit $p"; else hit="$hit $p(nfi)"; fi
-      break
-    fi
-  done
+  git -C /repo apply $d || { echo "$b does-not-apply" >> /tmp/mut/eval.log; continue; }
+  first=$(echo $props | cut -d' ' -f1)
+  # the first check also builds; the others then run side by side
+  hit=$( (timeout 1200 ./check $first 2>&1 | grep -E "^VIOLATION" | head -2 | sed "s/^/$first /") )
+  res=""
+  if [ -n "$hit" ]; then
+    if echo "$hit" | grep -qv "no-failing-input-found"; then res="$first"; else res="$first(nfi)"; fi
+  fi
+  case "$res" in
+    *"(nfi)"|"")
+      rest=$(echo $props | cut -d' ' -f2- -s)
+      if [ -n "$rest" ]; then
+        more=$(printf '%s\n' $rest | xargs -P 6 -I{} sh -c 'r=$(timeout 1200 ./check {} 2>&1 | grep -E "^VIOLATION" | head -2); if [ -n "$r" ]; then if echo "$r" | grep -qv no-failing-input-found; then echo -n "{} "; else echo -n "{}(nfi) "; fi; fi')
+        res="$res $more"
+      fi;;
+  esac
   git -C /repo checkout -- . ; git -C /repo clean -fdq
-  loc=$(grep -m1 '^@@' $d)
-  echo "$(basename $d) $f ${hit:-NOT-DETECTED} | $(grep '^-[^-]' $d | head -1 | cut -c1-90) => $(grep '^+[^+]' $d | head -1 | cut -c1-90)" >> /tmp/mut/eval.log
+  res=$(echo $res)
+  echo "$b $f ${res:-NOT-DETECTED} | $(grep '^-[^-]' $d | head -1 | cut -c1-90) => $(grep '^+[^+]' $d | head -1 | cut -c1-90)" >> /tmp/mut/eval.log
 done
 echo finished >> /tmp/mut/eval.log
